@@ -44,20 +44,22 @@ Definition spec_pcr_lin (o : opts) (t : list nuc) (a : amplicon) : Prop :=
   spec_orient o t (o_rev o) (o_er o) (rc_primer (o_fwd o)) (o_ef o) false a.
 
 (* well-formed options of a linear run: an extension, when requested, is >= 0 (HasExtension is `extension > -1`);
-   primers are not empty; the forward primer fits the matcher's MAX_PAT_LEN *)
+   primers are not empty. (Round 1 also needed the forward primer to fit MAX_PAT_LEN: the window of the reverse-orientation
+   search was sized with the wrong primer and relied on the margin of FindAllIndex; repaired.) *)
 Definition ext_ok (o : opts) : Prop := forall x, o_ext o = Some x -> 0 <= x.
 Definition linear_ok (o : opts) : Prop :=
-  o_circ o = false /\ ext_ok o /\ o_fwd o <> [] /\ o_rev o <> [] /\ len (o_fwd o) <= MAX_PAT_LEN.
+  o_circ o = false /\ ext_ok o /\ o_fwd o <> [] /\ o_rev o <> [].
 
 (* the same amplicon record with the direction flipped *)
 Definition flip (a : amplicon) : amplicon :=
   match a with (s, d, f, kf, r, kr) => (s, negb d, f, kf, r, kr) end.
 
 (* ---------------------------------------------------------------- circular templates *)
-(* number of mismatching positions of primer p against a window of the same length *)
+(* number of mismatching positions of primer p against a window of the same length (a mismatch on an obligatory position
+   `#` counts miss = 1000 > any error budget: such a window is never a site) *)
 Fixpoint mm (p : list sym) (w : list nuc) : N :=
   match p, w with
-  | s :: p', x :: w' => ((if sym_match s x then 0 else 1) + mm p' w')%N
+  | s :: p', x :: w' => ((if sym_match s x then 0 else miss s) + mm p' w')%N
   | _, _ => 0%N
   end.
 
@@ -70,8 +72,8 @@ Definition chit (p : list sym) (e : N) (t : list nuc) (i : Z) (k : N) : Prop :=
   0 <= i < len t /\ mm p (circ t i (len p)) = k /\ (k <= e)%N.
 
 (* amplicons of one orientation of a CIRCULAR template: the insert is the arc from the end of the first match to
-   the start of the second one; with an extension of x bases the primers and x bases on each side are included
-   (statement restricted to flanked amplicons not longer than the circle) *)
+   the start of the second one; with an extension of x bases the primers and x bases on each side are included, read
+   along the circle (the flanked amplicon may be longer than the circle: it then goes around it more than once) *)
 Definition spec_orient_circ (o : opts) (t : list nuc) (p1 : list sym) (e1 : N) (p2 : list sym) (e2 : N)
            (fwd_block : bool) (a : amplicon) : Prop :=
   exists i k1 j k2,
@@ -81,7 +83,7 @@ Definition spec_orient_circ (o : opts) (t : list nuc) (p1 : list sym) (e1 : N) (
     exists s,
       match o_ext o with
       | None => s = circ t (i + len p1) ins
-      | Some x => len p1 + ins + len p2 + 2 * x <= len t /\ s = circ t (i - x) (len p1 + ins + len p2 + 2 * x)
+      | Some x => s = circ t (i - x) (len p1 + ins + len p2 + 2 * x)
       end /\
       a = mk_amp fwd_block s (circ t i (len p1)) k1 (circ t j (len p2)) k2.
 
@@ -92,16 +94,72 @@ Definition spec_pcr_circ (o : opts) (t : list nuc) (a : amplicon) : Prop :=
 (* the same circle written from another origin *)
 Definition rot (r : nat) (t : list nuc) : list nuc := skipn r t ++ firstn r t.
 
-(* circular runs covered by the model-level theorems: primers non-empty, within the matcher's MAX_PAT_LEN and not
-   longer than the circle (see the known finding "circular template shorter than a primer"); when an extension of x
-   bases is requested, a max length is set and the longest flanked amplicon (primers + max + 2x) fits the circle (see
-   the known finding "flanked amplicon longer than the circle") *)
-Definition flank_fits (o : opts) (t : list nuc) : Prop :=
+(* circular runs covered by the model-level theorems: an extension, when requested, is >= 0; primers are non-empty and
+   within the matcher's MAX_PAT_LEN. Nothing is assumed about the template: it may be empty, shorter than a primer
+   (a site then goes around the circle several times), and the flanked amplicon may be longer than the circle. *)
+Definition circular_ok (o : opts) : Prop :=
+  o_circ o = true /\ ext_ok o /\ o_fwd o <> [] /\ o_rev o <> [] /\
+  len (o_fwd o) <= MAX_PAT_LEN /\ len (o_rev o) <= MAX_PAT_LEN.
+
+(* ================================================================ the specification as a MULTISET (a list up to order)
+   One record per PAIR of sites: sites of a primer = the positions where it lies within its error budget, each with its
+   number of mismatches; the amplicons of one orientation = one record for every (site of p1, site of p2) whose insert
+   length is within the bounds (and, with --only-complete-flanking, whose flanks are available). *)
+Definition positions (n : Z) : list Z := map Z.of_nat (seq 0 (Z.to_nat n)).
+
+Definition site_at (p : list sym) (e : N) (w : list nuc) (i : Z) : list (Z * N) :=
+  if (mm p w <=? e)%N then [(i, mm p w)] else [].
+
+(* linear template: positions 0 .. L - m *)
+Definition sites (p : list sym) (e : N) (t : list nuc) : list (Z * N) :=
+  flat_map (fun i => site_at p e (slice t i (i + len p)) i) (positions (len t - len p + 1)).
+
+Definition cut_lin_f (o : opts) (L i m1 j m2 : Z) : option (Z * Z) :=
   match o_ext o with
-  | None => True
-  | Some x => 0 <= x /\ 0 < o_max o /\ len (o_fwd o) + o_max o + len (o_rev o) + 2 * x <= len t
+  | None => Some (i + m1, j)
+  | Some x =>
+      if o_full o then (if (0 <=? i - x) && (j + m2 + x <=? L) then Some (i - x, j + m2 + x) else None)
+      else Some (Z.max 0 (i - x), Z.min L (j + m2 + x))
   end.
 
-Definition circular_ok (o : opts) (t : list nuc) : Prop :=
-  o_circ o = true /\ flank_fits o t /\ o_fwd o <> [] /\ o_rev o <> [] /\
-  len (o_fwd o) <= MAX_PAT_LEN /\ len (o_rev o) <= MAX_PAT_LEN /\ len (o_fwd o) <= len t /\ len (o_rev o) <= len t.
+Definition cell_lin (o : opts) (t : list nuc) (m1 m2 : Z) (fwd_block : bool) (h1 h2 : Z * N) : list amplicon :=
+  let i := fst h1 in let j := fst h2 in
+  if length_ok o (j - (i + m1)) then
+    match cut_lin_f o (len t) i m1 j m2 with
+    | Some (from, to) => [mk_amp fwd_block (slice t from to) (slice t i (i + m1)) (snd h1) (slice t j (j + m2)) (snd h2)]
+    | None => []
+    end
+  else [].
+
+Definition amps_orient_lin (o : opts) (t : list nuc) (p1 : list sym) (e1 : N) (p2 : list sym) (e2 : N) (fwd_block : bool)
+  : list amplicon :=
+  flat_map (fun h1 => flat_map (fun h2 => cell_lin o t (len p1) (len p2) fwd_block h1 h2) (sites p2 e2 t)) (sites p1 e1 t).
+
+Definition amps_lin (o : opts) (t : list nuc) : list amplicon :=
+  amps_orient_lin o t (o_fwd o) (o_ef o) (rc_primer (o_rev o)) (o_er o) true ++
+  amps_orient_lin o t (o_rev o) (o_er o) (rc_primer (o_fwd o)) (o_ef o) false.
+
+(* circular template: positions 0 .. L - 1, the primer read along the circle *)
+Definition csites (p : list sym) (e : N) (t : list nuc) : list (Z * N) :=
+  flat_map (fun i => site_at p e (circ t i (len p)) i) (positions (len t)).
+
+Definition circ_cut (o : opts) (t : list nuc) (i m1 j m2 : Z) : list nuc :=
+  let ins := (j - (i + m1)) mod len t in
+  match o_ext o with
+  | None => circ t (i + m1) ins
+  | Some x => circ t (i - x) (m1 + ins + m2 + 2 * x)
+  end.
+
+Definition cell_circ (o : opts) (t : list nuc) (m1 m2 : Z) (fwd_block : bool) (h1 h2 : Z * N) : list amplicon :=
+  let i := fst h1 in let j := fst h2 in
+  if length_ok o ((j - (i + m1)) mod len t) then
+    [mk_amp fwd_block (circ_cut o t i m1 j m2) (circ t i m1) (snd h1) (circ t j m2) (snd h2)]
+  else [].
+
+Definition amps_orient_circ (o : opts) (t : list nuc) (p1 : list sym) (e1 : N) (p2 : list sym) (e2 : N) (fwd_block : bool)
+  : list amplicon :=
+  flat_map (fun h1 => flat_map (fun h2 => cell_circ o t (len p1) (len p2) fwd_block h1 h2) (csites p2 e2 t)) (csites p1 e1 t).
+
+Definition amps_circ (o : opts) (t : list nuc) : list amplicon :=
+  amps_orient_circ o t (o_fwd o) (o_ef o) (rc_primer (o_rev o)) (o_er o) true ++
+  amps_orient_circ o t (o_rev o) (o_er o) (rc_primer (o_fwd o)) (o_ef o) false.
